@@ -3,6 +3,7 @@ package main
 // C07 (encryption confers no trust; decryption bound to the SP key) and C12 (bounded decompression).
 
 import (
+	"go/token"
 	"fmt"
 	"go/types"
 	"strings"
@@ -453,6 +454,10 @@ func ruleC07(c *Ctx) {
 
 const defaultMax = 5 * 1024 * 1024
 
+// how maybeDeflate's callers express the requested limit and (when it is not the built-in constant) the default: access
+// paths from its parameters, discovered on its own paths and evaluated at every call site by limitOf.
+var reqExpr, defExpr Val
+
 func ruleC12(c *Ctx) {
 	c.rule("C12-R1", "who-may-call: decompressor constructors (flate/zlib/gzip/bzip2/lzw readers) occur exactly once in library scope, inside maybeDeflate (positive control must fire)")
 	c.rule("C12-R2", "bounded read: the flate reader flows only into io.LimitReader(r, max+1) with max = parameter, or 5 MiB when the parameter is 0; only the limited reader is read")
@@ -487,6 +492,7 @@ func ruleC12(c *Ctx) {
 	if md != nil {
 		fname := shortFn(md.Root)
 		nSecond := 0
+		reqExpr, defExpr = nil, nil
 		// the error result (the helper may also hand back the bytes it decoded)
 		errIdx := -1
 		for i, rs := 0, md.Root.Signature.Results(); i < rs.Len(); i++ {
@@ -521,7 +527,15 @@ func ruleC12(c *Ctx) {
 				c.bad("C12-R4", fname, "first attempt", pos, "a path does not invoke the decoder at all")
 				continue
 			}
-			c.check(ap(decs[0].Args[0]) == "$decoder" && ap(decs[0].Args[1]) == "$data", "C12-R4", fname, "first attempt decodes the caller's bytes", c.P.InstrPos(decs[0].Instr), "decoder(data)", "first attempt is "+ap(decs[0].Args[0])+"("+ap(decs[0].Args[1])+")")
+			firstOK := false
+			if dp, isP := decs[0].Args[0].(*ParamV); isP {
+				if _, isFn := dp.Type().Underlying().(*types.Signature); isFn {
+					if bp, isP2 := decs[0].Args[1].(*ParamV); isP2 && typeStr(bp.Type()) == "[]byte" {
+						firstOK = true
+					}
+				}
+			}
+			c.check(firstOK, "C12-R4", fname, "first attempt decodes the caller's bytes", c.P.InstrPos(decs[0].Instr), "decoder(data)", "first attempt is "+ap(decs[0].Args[0])+"("+ap(decs[0].Args[1])+")")
 			if fl == nil {
 				// no inflate on this path: must be the first-attempt success
 				r0, k := t.eqFact(decs[0].Res[0], nilOf(nil))
@@ -563,22 +577,62 @@ func ruleC12(c *Ctx) {
 				c.bad("C12-R2", fname, "flate reader wrapped in io.LimitReader", c.P.InstrPos(fl.Instr), "the decompressor is not wrapped in a limited reader (io.LimitReader / io.LimitedReader) that is then the only thing read")
 				continue
 			}
-			a := t.atoms()
+			// how this path chose its limit: a test "requested == 0" on an integer the caller handed in (a parameter, or a
+			// field of a parameter struct); true => the default applies, false => the requested value
 			var maxAP string
-			switch {
-			case a["$maxSize == 0"]:
-				maxAP = fmt.Sprint(defaultMax)
-			case a["!($maxSize == 0)"]:
-				maxAP = "$maxSize"
-			default:
-				c.bad("C12-R2", fname, "default limit selection", c.P.InstrPos(limInstr), "path does not select the default for maxSize == 0")
+			var maxVal Val // the limit of this path as a value
+			for _, f := range t.St.facts {
+				b, isBin := f.Cond.(*BinV)
+				if !isBin || b.Op != token.EQL || !isConstInt(b.Y, 0) || !fromParam(b.X) || !isIntType(b.X.Type()) {
+					continue
+				}
+				if reqExpr == nil {
+					reqExpr = b.X
+				}
+				if b.X.Key() != reqExpr.Key() {
+					continue
+				}
+				if f.Pol {
+					maxAP = "default"
+				} else {
+					maxAP, maxVal = "$maxSize", b.X
+				}
+			}
+			if maxAP == "" {
+				c.bad("C12-R2", fname, "default limit selection", c.P.InstrPos(limInstr), "path does not select the default for a requested limit of 0")
 				continue
 			}
-			wantN := "(" + maxAP + " + 1)"
-			if maxAP != "$maxSize" {
-				wantN = fmt.Sprint(defaultMax + 1)
+			// N = limit + 1
+			nb, isAdd := limN.(*BinV)
+			var lv Val
+			if isAdd && nb.Op == token.ADD && isConstInt(nb.Y, 1) {
+				lv = nb.X
+			} else if k, isC := constInt(limN); isC {
+				lv = intV(k - 1)
 			}
-			c.check(ap(limN) == wantN, "C12-R2", fname, "LimitReader bound is max+1 ["+maxAP+"]", c.P.InstrPos(limInstr), "N = "+wantN, "LimitReader bound is "+ap(limN)+", want "+wantN+" (limit "+maxAP+")")
+			wantN := "limit + 1"
+			goodN := false
+			switch maxAP {
+			case "$maxSize":
+				goodN = lv != nil && lv.Key() == maxVal.Key()
+			default:
+				// the default: the 5 MiB constant, or a value the callers hand in (checked to be that constant at every call site)
+				if lv != nil {
+					if k, isC := constInt(lv); isC {
+						goodN = k == defaultMax
+						maxAP = fmt.Sprint(defaultMax)
+					} else if fromParam(lv) {
+						goodN = true
+						if defExpr == nil {
+							defExpr = lv
+						}
+						goodN = defExpr.Key() == lv.Key()
+						maxAP = fmt.Sprint(defaultMax)
+					}
+					maxVal = lv
+				}
+			}
+			c.check(goodN, "C12-R2", fname, "LimitReader bound is max+1 ["+maxAP+"]", c.P.InstrPos(limInstr), "N = "+wantN, "LimitReader bound is "+ap(limN)+", which is not (the limit selected on this path) + 1")
 			if okFlow {
 				c.ok("C12-R2", fname, "only the limited reader is read ["+maxAP+"]", c.P.InstrPos(fl.Instr), "flate reader -> LimitReader -> ReadAll")
 			}
@@ -593,8 +647,8 @@ func ruleC12(c *Ctx) {
 				c.check(d2.Args[0].Key() == decs[0].Args[0].Key() && d2.Args[1].Key() == out.Key(), "C12-R4", fname, "second attempt: same decoder over the inflated bytes ["+maxAP+"]", c.P.InstrPos(d2.Instr), "decoder(deflated)", "second attempt is "+ap(d2.Args[0])+"("+ap(d2.Args[1])+")")
 				b := newBounds(t, d2.Seq)
 				var mx lin
-				if maxAP == "$maxSize" {
-					mx = b.linOf(md.paramVal(1))
+				if maxVal != nil {
+					mx = b.linOf(maxVal)
 				} else {
 					mx = lin{t: map[string]int64{}, k: defaultMax}
 				}
@@ -644,7 +698,15 @@ func ruleC12(c *Ctx) {
 			for _, e := range t.St.events {
 				if (e.Kind == EvCall || e.Kind == EvEnter) && shortName(e.Callee) == callee && len(e.Args) >= 2 {
 					seen++
-					c.check(ap(e.Args[1]) == want, "C12-R5", shortFn(r.Root), "limit passed to "+callee, c.P.InstrPos(e.Instr), want, "limit is "+ap(e.Args[1])+", want "+want)
+					got := e.Args[1]
+					if callee == "maybeDeflate" && reqExpr != nil {
+						got = atCallSite(t, reqExpr, e.Args)
+						if defExpr != nil {
+							d := atCallSite(t, defExpr, e.Args)
+							c.check(d != nil && ap(d) == fmt.Sprint(defaultMax), "C12-R5", shortFn(r.Root), "default limit handed to "+callee, c.P.InstrPos(e.Instr), fmt.Sprint(defaultMax), "the fallback limit passed is "+apOrNone(d)+", want the 5 MiB default")
+						}
+					}
+					c.check(got != nil && ap(got) == want, "C12-R5", shortFn(r.Root), "limit passed to "+callee, c.P.InstrPos(e.Instr), want, "limit is "+apOrNone(got)+", want "+want)
 				}
 			}
 		}
@@ -902,4 +964,41 @@ func wholeCopyValAt(t *Terminal, v Val, seq int) (Val, bool) {
 		}
 	}
 	return src, found
+}
+
+// fromParam: a parameter of the kernel root or a field (of a field ...) of one.
+func fromParam(v Val) bool {
+	for {
+		switch x := v.(type) {
+		case *ParamV:
+			return true
+		case *FieldV:
+			v = x.X
+			continue
+		case *ConvV:
+			v = x.X
+			continue
+		}
+		return false
+	}
+}
+
+// atCallSite evaluates an access path rooted at a parameter of the callee (param, param.f, param.f.g) on the argument
+// values of one call.
+func atCallSite(t *Terminal, expr Val, args []Val) Val {
+	switch x := expr.(type) {
+	case *ParamV:
+		if x.Idx < len(args) {
+			return args[x.Idx]
+		}
+	case *ConvV:
+		return atCallSite(t, x.X, args)
+	case *FieldV:
+		base := atCallSite(t, x.X, args)
+		if base == nil {
+			return nil
+		}
+		return newReader(t).field(base, x.Name)
+	}
+	return nil
 }
